@@ -145,7 +145,13 @@ impl ScriptFs {
     fn log(&self, s: String) -> Answer {
         let mut st = self.st.lock().unwrap();
         st.log.push(s);
-        st.ans.clone()
+        let mut a = st.ans.clone();
+        // a server that keeps asking (e.g. retries after EINTR) must not hang the exploration: after 64 calls for one
+        // request the answer becomes a plain EIO, and the 64 logged calls are what the oracle sees
+        if st.log.len() >= 64 {
+            a.fail = Some(Fail::Errno(libc::EIO));
+        }
+        a
     }
     fn failed(a: &Answer) -> Option<io::Error> {
         match &a.fail {
